@@ -421,7 +421,7 @@ def run_case(case, pool):
     return out
 
 
-REP_QUICK_SAMPLE = {"dens": 1000, "temp": 700, "burn": 1000, "kind": 700, "tri": 1300, "cyl": 1000, "cyl3": 500, "lfp": 300, "ord": 300, "perm": 500, "sym": 1200}
+REP_QUICK_SAMPLE = {"dens": 900, "temp": 600, "burn": 900, "kind": 600, "tri": 1100, "cyl": 900, "cyl3": 400, "lfp": 250, "ord": 250, "perm": 468, "sym": 900}
 
 
 def check_rep(rep, tier, seed):
@@ -819,7 +819,7 @@ def mgr_key(scn, d):
     return "mgr:%s:%s:%s" % (scn, owner, field)
 
 
-MGR_QUICK_EDGES = 800
+MGR_QUICK_EDGES = 700
 MGR_CALLS = ("Make", "Create", "Use", "UpdCore", "UpdGrp", "UpdNew")
 
 
@@ -862,10 +862,11 @@ def check_manager(rep, tier, seed):
         todo = rng.sample(calls, 500)
     elif not thorough and len(edges) > MGR_QUICK_EDGES:
         # environment edits are exercised by the longer behaviours anyway: keep every edge that ends with a manager call
-        # (the small workflow scenario is replayed completely; it holds the longest behaviours)
+        # (the small workflow scenario, which holds the longest behaviours, gets its own share)
         calls = [e for e in edges if e["path"][-1]["n"] in MGR_CALLS]
         keep = [e for e in calls if e["scn"] == "exist"]
         rest = [e for e in calls if e["scn"] != "exist"]
+        keep = keep if len(keep) <= 300 else rng.sample(keep, 300)
         todo = keep + (rest if len(rest) <= MGR_QUICK_EDGES else rng.sample(rest, MGR_QUICK_EDGES))
     n = nt = 0
     for e in todo:
@@ -976,7 +977,8 @@ _SELFTEST = False
 
 
 def run(rep, tier, seed):
-    for m in ("XsGroupsLabels_mc", "XsGroupsRep_mc", "XsGroups_mc", "XsGroups_trace"):
+    # (XsGroups_trace extends XsGroups_mc, XsGroups, XsGroupsAvg, XsGroupsDefs: one SANY run covers the chain)
+    for m in ("XsGroupsLabels_mc", "XsGroupsRep_mc", "XsGroups_trace"):
         tlc.sany(m, MODDIR)
     rep.exhaustive = True
     check_labels(rep, tier)
